@@ -252,3 +252,88 @@ handle_contract!(handle_failed_blend_then_render_returns, 1, 1, |h| {
     std::mem::forget(r2);
     std::mem::forget(img);
 });
+
+// ------------------------------------------------------------------------------------------------
+// C13 (and the value half for C03/C15): ImageBuffer float conversions. The f32 replacement grid is charged to the
+// SAME tracker as the integer source (exactly its buffer size), the source's bytes come back, exhaustion is an
+// Err that leaves buffer and budget untouched, and every sample is converted by the documented rule.
+// Grid 2x1 (concrete: Vec growth with symbolic lengths is out of CBMC's reach), samples and budget symbolic.
+// Buffer sizes (AlignedGrid::with_alloc_tracker): (len + 31 / size_of::<S>()) * size_of::<S>().
+// ------------------------------------------------------------------------------------------------
+const F32_BYTES: usize = (2 + 7) * 4;
+
+fn exactly_left(t: &AllocTracker, bytes: usize) -> bool {
+    // no getter for the budget: it is `bytes` iff exactly `bytes` can be taken away and then nothing more
+    t.shrink_limit(bytes).is_ok() && t.shrink_limit(1).is_err()
+}
+
+macro_rules! float_conversion_contract {
+    ($name:ident, $variant:ident, $ty:ty, $src_bytes:expr, $slack:expr, $convert:expr) => {
+        #[kani::proof]
+        #[kani::unwind(18)]
+        fn $name() {
+            // budget = source grid + f32 copy + slack, slack in {-1 (one byte short), 0 (exact fit)}: the two sides of
+            // the exhaustion boundary; a symbolic budget does not close in CBMC together with the allocator paths
+            let limit: usize = ($src_bytes + F32_BYTES) as usize - (if $slack { 1 } else { 0 });
+            let tracker = AllocTracker::with_limit(limit);
+            let Ok(mut g) = AlignedGrid::<$ty>::with_alloc_tracker(2, 1, Some(&tracker)) else { return; };
+            let s0: $ty = kani::any();
+            let s1: $ty = kani::any();
+            g.buf_mut()[0] = s0;
+            g.buf_mut()[1] = s1;
+            let mut ib = ImageBuffer::$variant(g);
+            let bit_depth = BitDepth::IntegerSample { bits_per_sample: 8 };
+            let convert: fn(&mut ImageBuffer, BitDepth) -> bool = $convert;
+            let ok = convert(&mut ib, bit_depth);
+            if ok {
+                assert!(limit >= $src_bytes + F32_BYTES, "[C13] the conversion succeeds only if the f32 copy fits in the remaining budget");
+                let ImageBuffer::F32(out) = &ib else { panic!("[C13,C15] converted buffer is F32") };
+                assert!(out.tracker().is_some(), "[C13] the converted grid stays on the source's tracker");
+                assert!(exactly_left(&tracker, limit - F32_BYTES), "[C13] budget after conversion = limit - f32 buffer (source bytes returned, copy charged)");
+            } else {
+                assert!(limit < $src_bytes + F32_BYTES, "[C13] conversion fails only on exhaustion");
+                assert!(matches!(&ib, ImageBuffer::$variant(g) if g.buf()[0] == s0 && g.buf()[1] == s1), "[C13] a failed conversion leaves the buffer unchanged");
+                assert!(exactly_left(&tracker, limit - $src_bytes), "[C13] a failed conversion leaves the budget unchanged");
+            }
+            kani::cover!(ok == !$slack);
+            std::mem::forget(ib);
+        }
+    };
+}
+float_conversion_contract!(cast_to_float_i16_fits, I16, i16, (2 + 15) * 2, false, |ib, _| ib.cast_to_float().is_ok());
+float_conversion_contract!(cast_to_float_i16_short, I16, i16, (2 + 15) * 2, true, |ib, _| ib.cast_to_float().is_ok());
+float_conversion_contract!(cast_to_float_i32_fits, I32, i32, (2 + 7) * 4, false, |ib, _| ib.cast_to_float().is_ok());
+float_conversion_contract!(cast_to_float_i32_short, I32, i32, (2 + 7) * 4, true, |ib, _| ib.cast_to_float().is_ok());
+float_conversion_contract!(convert_modular_i16_fits, I16, i16, (2 + 15) * 2, false, |ib, bd| ib.convert_to_float_modular(bd).is_ok());
+float_conversion_contract!(convert_modular_i16_short, I16, i16, (2 + 15) * 2, true, |ib, bd| ib.convert_to_float_modular(bd).is_ok());
+float_conversion_contract!(convert_modular_i32_fits, I32, i32, (2 + 7) * 4, false, |ib, bd| ib.convert_to_float_modular(bd).is_ok());
+float_conversion_contract!(convert_modular_i32_short, I32, i32, (2 + 7) * 4, true, |ib, bd| ib.convert_to_float_modular(bd).is_ok());
+
+macro_rules! float_conversion_values {
+    ($name:ident, $variant:ident, $ty:ty) => {
+        #[kani::proof]
+        #[kani::unwind(18)]
+        fn $name() {
+            let Ok(mut g) = AlignedGrid::<$ty>::with_alloc_tracker(2, 1, None) else { return; };
+            let s0: $ty = kani::any();
+            let s1: $ty = kani::any();
+            g.buf_mut()[0] = s0;
+            g.buf_mut()[1] = s1;
+            let bits: u32 = kani::any();
+            kani::assume(bits >= 1 && bits <= 31);
+            let bd = BitDepth::IntegerSample { bits_per_sample: bits };
+            let mut a = ImageBuffer::$variant(g.try_clone().unwrap());
+            let mut b = ImageBuffer::$variant(g);
+            let fa = a.cast_to_float().unwrap();
+            assert!(fa.buf()[0].to_bits() == (s0 as f32).to_bits() && fa.buf()[1].to_bits() == (s1 as f32).to_bits(),
+                "[C03,C15] cast_to_float converts each integer sample to the nearest f32");
+            let fb = b.convert_to_float_modular(bd).unwrap();
+            assert!(fb.buf()[0].to_bits() == bd.parse_integer_sample(s0 as i32).to_bits()
+                && fb.buf()[1].to_bits() == bd.parse_integer_sample(s1 as i32).to_bits(),
+                "[C03,C15] convert_to_float_modular scales each sample by 1 / (2^bits - 1) (BitDepth::parse_integer_sample)");
+            assert!(fa.width() == 2 && fa.height() == 1 && fb.width() == 2 && fb.height() == 1, "[C15] dimensions are kept");
+        }
+    };
+}
+float_conversion_values!(float_conversion_values_i16, I16, i16);
+float_conversion_values!(float_conversion_values_i32, I32, i32);
